@@ -33,8 +33,22 @@ def install_stubs() -> None:
     from . import restub
     PP.AMINO_ACIDS = "".join(sorted(PP.AMINO_ACIDS))
     restub.install(PP, SF, U, FR)
-    from .c16 import install_stubs as _s9
-    _s9()          # S9: are_mods_equal / are_intervals_equal by their multiset contract (CrossHair cannot follow Mod.__hash__)
+    # S9': CrossHair cannot follow Mod.__hash__ / Interval.__hash__ (Counter-based equality).  In this harness every modification
+    # value is concrete once the symbolic feature flags are decided, so the *real* are_mods_equal / are_intervals_equal run
+    # untraced on the real objects - their side effects on the caller's lists (the subject of this property) stay observable,
+    # which a substitution by contract (S9 as used for C16) would hide.
+    from crosshair.tracers import NoTracing
+    import peptacular.proforma.proforma_dataclasses as PD
+
+    def _untraced(real):
+        def f(a, b):
+            with NoTracing():
+                return real(a, b)
+        return f
+    for name in ("are_mods_equal", "are_intervals_equal"):
+        wrapped = _untraced(getattr(PD, name))
+        setattr(PP, name, wrapped)
+        setattr(PD, name, wrapped)
     PP.random = _FakeRandom   # S-RNG2: CrossHair models the RNG as nondeterministic, which makes "same seed, same result" unprovable
 
 
@@ -72,22 +86,24 @@ def _fail(**kw) -> bool:
 def build(seq: str, fl: Dict[str, bool]) -> ProFormaAnnotation:
     kw: Dict[str, Any] = {}
     n = len(seq)
+    # every list holds two entries in *descending* order of Mod.__lt__ (str of the value): a callee that sorts, de-duplicates or
+    # otherwise canonicalises a caller's list in place is then visible in the snapshot
     if fl.get("labile"):
-        kw["labile_mods"] = [Mod("Hex", 1)]
+        kw["labile_mods"] = [Mod("Phospho", 1), Mod("Hex", 1)]
     if fl.get("unknown"):
-        kw["unknown_mods"] = [Mod("Oxidation", 1)]
+        kw["unknown_mods"] = [Mod("Oxidation", 1), Mod("Methyl", 1)]
     if fl.get("nterm"):
         kw["nterm_mods"] = [Mod("Acetyl", 1), Mod(1.5, 1)]
     if fl.get("cterm"):
-        kw["cterm_mods"] = [Mod("Amidated", 1)]
+        kw["cterm_mods"] = [Mod("Methyl", 1), Mod("Amidated", 1)]
     if fl.get("internal"):
         kw["internal_mods"] = {0: [Mod("Phospho", 1), Mod(3.25, 2)], n - 1: [Mod("Formula:C2H3", 1)]}
     if fl.get("interval"):
-        kw["intervals"] = [Interval(0, n, False, [Mod("Methyl", 1)])] if n < 3 else [Interval(1, n, True, [Mod("Methyl", 1)])]
+        kw["intervals"] = [Interval(0, n, False, [Mod("Phospho", 1), Mod("Acetyl", 1)])] if n < 3 else [Interval(1, n, True, [Mod("Phospho", 1), Mod("Acetyl", 1)])]
     if fl.get("static"):
         kw["static_mods"] = [Mod("[Carbamidomethyl]@C", 1), Mod("[+1.25]@N-Term", 1)]
     if fl.get("isotope"):
-        kw["isotope_mods"] = [Mod("13C", 1)]
+        kw["isotope_mods"] = [Mod("15N", 1), Mod("13C", 1)]
     if fl.get("charge"):
         kw["charge"] = 2
     if fl.get("adducts"):
@@ -241,6 +257,10 @@ TARGETS: Dict[str, Tuple[Callable, Callable]] = {
     "sf_count_residues": _t(lambda a: (a,), lambda a: SF.count_residues(a)),
     "is_subsequence": _t(lambda a: (a.slice(0, 1), a), lambda q, t: SF.is_subsequence(q, t)),
     "is_subsequence_unordered": _t(lambda a: (a.slice(0, 1), a), lambda q, t: SF.is_subsequence(q, t, order=False)),
+    # the same queries with a query that equals the whole target: the comparison then runs through every field, intervals included
+    "is_subsequence/self": _t(lambda a: (a.copy(), a), lambda q, t: SF.is_subsequence(q, t)),
+    "find_subsequence_indices/self": _t(lambda a: (a, a.copy()), lambda t, q: SF.find_subsequence_indices(t, q)),
+    "coverage/self": _t(lambda a: (a, [a.copy()]), lambda t, qs: SF.coverage(t, qs, accumulate=True)),
     "sf_sort": _t(lambda a: (a,), lambda a: SF.sort(a)),
     "find_subsequence_indices": _t(lambda a: (a, a.slice(0, 1)), lambda t, q: SF.find_subsequence_indices(t, q)),
     "coverage": _t(lambda a: (a, [a.slice(0, 1), a.strip().slice(0, 1)]), lambda t, qs: SF.coverage(t, qs, accumulate=True, ignore_mods=True)),
